@@ -50,7 +50,14 @@ RULE = ("family dk: 11 crystals × 5 PM types × crystal θ ∈ [0,π/2] (plus {
         "(set_phi, set_theta_internal, set_theta_external, set_angles, wavelength, frequency, polarization, the five idler.* sweep paths) or "
         "tilts of the pump (set_theta_internal, set_phi, set_angles, |θp| ≤ 0.1) and the mismatch clause alone (centre + detuned pair); "
         "every case and every object check also emits K dk_from_angles (Δk of the real code vs the model's Δk along "
-        "direction_from_polar of the angles the getters report)")
+        "direction_from_polar of the angles the getters report); "
+        "WAISTS: every signal and pump waist of the family is a BeamWaist {x, y} drawn independently for signal and pump — 2/5 circular, "
+        "3/5 elliptic (nearly circular 1e-12…1e-2, aspect 0.3–3, both axes independent) — through Beam::new and set_waist (also from a "
+        "circular-x / swapped start), in the direct cases, route, scan (signal-waist / pump-waist alone) and setter sessions; the waist "
+        "clause compares x AND y bit for bit on the idler of every route (also on SPDC::optimum_idler's result in the direct cases); JSON "
+        "configs draw pump and signal waist_um independently; 3/20 of the setter-built direct cases leave the PUMP tilted "
+        "(PumpBeam::new of a tilted beam, pump.set_angles / set_theta_internal+set_phi, |θp| ≤ 0.1): there the mismatch-definition clause "
+        "and the scalar idler clauses apply (the closed-form idler direction is stated for a pump along z)")
 RESIDUAL = "none beyond floating-point rounding (the index values are C01/C02's)"
 ASSUMPTIONS = ["refractive indices are inputs of the model (layer C02)", "UCUM base values: M = RAD = 1.0, so x*M/RAD is the identity"]
 CHECKER_MODULES = ["Spdc.Real.DeltaK"]
